@@ -605,3 +605,19 @@ mut("C06", "r2-ctrlfn-finish-before-recover", "modules/worker.go",
     "\t\t\t// recover from panic\n\t\t\tpanicVal := recover()", "\t\t\tm.ctrlFuncRunning.UnSet()\n\t\t\tm.checkIfStopComplete()\n\t\t\t// recover from panic\n\t\t\tpanicVal := recover()", "C06-R2|modules.(*Module).startCtrlFn$1 / panic error sent before completion is signalled", comment="round-2 seed C06-b1")
 mut("C06", "r6-handler-calls-error-method", "modules/error.go",
     "Message:    fmt.Sprintf(\"panic: %s\", panicValue),", "Message:    func() string {\n\t\t\tif e, ok := panicValue.(error); ok {\n\t\t\t\treturn \"panic: \" + e.Error()\n\t\t\t}\n\t\t\treturn fmt.Sprintf(\"panic: %s\", panicValue)\n\t\t}(),", "C06-R6|", comment="round-2 seed C06-b2")
+mut("C07", "r6-prio-element-stale", "modules/tasks.go",
+    "\tif t.prioritizedQueueElement != nil {\n\t\tqueuesLock.Lock()", "\tif t.queueElement == nil && t.prioritizedQueueElement != nil {\n\t\tqueuesLock.Lock()", "C07-R6|modules.(*Task).removeFromQueues / prioritizedQueueElement / cleared on every exit", comment="round-2 seed C07-b2")
+mut("C07", "r6-remove-wrong-list", "modules/tasks.go",
+    "\t\tprioritizedTaskQueue.Remove(t.prioritizedQueueElement)", "\t\ttaskQueue.Remove(t.prioritizedQueueElement)", "C07-R6|modules.(*Task).removeFromQueues / prioritizedQueueElement / removed from")
+mut("C09", "r6-safe16-unchecked-slice", "utils/safe.go",
+    "strings.SplitN(hex.Dump(data), \"\\n\", 2)[0],", "strings.SplitN(hex.Dump(data[:16]), \"\\n\", 2)[0],", "C09-R6|utils.SafeFirst16Bytes / slice [:16]", comment="round-2 seed C09-b1")
+mut("C13", "r5-handle-short-message", "api/database.go",
+    "\tif len(parts) != 3 {\n\t\tapi.send(nil, dbMsgTypeError, \"bad request: malformed message\", nil)", "\tif len(parts) < 2 {\n\t\tapi.send(nil, dbMsgTypeError, \"bad request: malformed message\", nil)", "C13-R5|api.(*DatabaseAPI).Handle / index [2]")
+mut("C11", "r4-parser-unchecked-first", "database/query/parser.go",
+    "\t\t\tif len(conditions) == 1 {\n\t\t\t\treturn conditions[0], nil", "\t\t\tif len(conditions) <= 1 {\n\t\t\t\treturn conditions[0], nil", "C11-R4|database/query.parseAndOr / index [0]", occurrence=1)
+mut("C16", "r7-compile-fastpath-offset", "container/container.go",
+    "\tif len(c.compartments) != 1 {\n\t\tnewBuf := make([]byte, c.Length())", "\tif len(c.compartments)-c.offset != 1 {\n\t\tnewBuf := make([]byte, c.Length())", "C16-R7|container.(*Container).CompileData / index [0]", comment="round-2 seed C16-b1")
+mut("C16", "r8-unpack32-bound", "formats/varint/varint.go",
+    "\tif n > 4294967295 {", "\tif n > 1<<32 {", "C16-R8|formats/varint.Unpack32", comment="round-2 seed C16-b2")
+mut("C08", "r6-unpack8-second-byte-unchecked", "formats/varint/varint.go",
+    "\tif len(blob) < 2 {\n\t\treturn 0, 0, ErrBufTooSmall\n\t}\n\tif blob[1] != 0x01 {", "\tif blob[1] != 0x01 {", "C08-R6|formats/varint.Unpack8 / index [1]")
